@@ -19,6 +19,20 @@ Print Assumptions C05_num_enc_minimal.
 Theorem C05_num_enc_dec_minimal : forall b, is_minimal b = true -> num_enc (num_dec b) = b.
 Proof. exact num_enc_dec_minimal. Qed.
 Print Assumptions C05_num_enc_dec_minimal.
+(** at EVERY length the sign is the top bit of the last byte and the magnitude is the remaining 8*len-1 bits read
+    little-endian: there is no width in which the position 8*(len-1)+7 of the sign bit could wrap (33-byte, 8193-byte
+    operands after Genesis) *)
+Theorem C05_num_dec_sign_magnitude : forall body last,
+  num_dec (body ++ [last]) =
+  ((if hi_bit last then -1 else 1) * Z.of_N (le_dec body + 256 ^ N.of_nat (length body) * (b2n last mod 128)))%Z.
+Proof. exact num_dec_snoc. Qed.
+Print Assumptions C05_num_dec_sign_magnitude.
+Example C05_long_number_examples :
+  num_dec (x01 :: repeat x00 31 ++ [x80]) = (-1)%Z /\
+  num_dec (repeat x00 31 ++ [x80; x80]) = (- 2 ^ 255)%Z /\
+  num_enc (- 2 ^ 255 + 1) = repeat xff 31 ++ [xff] /\
+  fst (engine_execute no_sigops (mkExecInput [] ([x21; x01] ++ repeat x00 31 ++ [x80; x8b; x00; x87]) 16384 false false 0 0 0)) = VOk.
+Proof. vm_compute. repeat split; reflexivity. Qed.
 (** the 4-byte operand / 5-byte result rule is a statement about magnitudes *)
 Theorem C05_num_enc_length_bound : forall z (k : nat), (Z.abs z < 2 ^ (8 * Z.of_nat k - 1))%Z -> length (num_enc z) <= k.
 Proof. exact num_enc_length_bound. Qed.
